@@ -31,7 +31,9 @@ def expected(stream, domain, decodable, fragment_codes=()):
                 exp = {'must': must, 'may': may, 'optional': False}
         else:
             if decodable(code):
-                exp = {'must': [i], 'may': [], 'optional': code in fragment_codes}
+                # a NONE record whose own code is open on the thread is a continuation fragment (C08): it may be swallowed
+                cont = qual == 0 and (tid, code) in open_start
+                exp = {'must': [i], 'may': [], 'optional': cont or code in fragment_codes}
         out.append(exp)
     return out
 
